@@ -60,8 +60,10 @@ Definition run_search (v : val) : val :=
     match strategy with
     | 0 => rbl_run sink mode lite_roll (lite_match needles invert passthru lt) cfg fuel
                    (lb_build cfg) (mk_rd (firstn npre stream) (skipn npre stream) hist) tt (s0, [])
-    | _ => (slice_run sink mode sniff_cap stream (lite_plan needles invert passthru lt stream)
+    | 1 => (slice_run sink mode sniff_cap stream (lite_plan needles invert passthru lt stream)
                       (length stream) (s0, []), ODone)
+    | _ => (* 2, 3: MultiLine over the slice / over the heap copy of the reader's data, pattern `\n` *)
+           (slice_run sink mode sniff_cap stream (ml_newline_plan lt stream) (length stream) (s0, []), ODone)
     end in
   let '((_, tr), o) := search (rec_sink stop bin_reply) 0 in
   let '((st, _), _) := search (std_step scfg (simple_render path pterm lt)) (mk_std 0 0 None []) in
